@@ -78,7 +78,7 @@ type target struct {
 }
 
 func profDamage(en *Env) {
-	bases := 2 * en.Scale
+	bases := 3 * en.Scale
 	if en.Thorough() {
 		bases = 8 * en.Scale
 	}
@@ -87,7 +87,7 @@ func profDamage(en *Env) {
 		trials += damageBase(en, b)
 	}
 	live := 0
-	lb := 3 * en.Scale
+	lb := 4 * en.Scale
 	if en.Thorough() {
 		lb = 24 * en.Scale
 	}
@@ -113,6 +113,15 @@ func liveDamage(en *Env, b int) int {
 	u := h.SimpleKeys(nkeys, 6)
 	vs := h.NewValues()
 	vlen := 40 + r.Intn(200)
+	multi := b%4 == 3
+	if multi {
+		// records of two or three blocks (First / Middle / Last chunks): the cuts then include every block boundary
+		// inside a record and its neighbours
+		perFile = 2
+		nkeys = perFile * nfiles
+		u = h.SimpleKeys(nkeys, 6)
+		vlen = h.BlockSize + 200 + r.Intn(h.BlockSize+h.BlockSize/2)
+	}
 	recLen := h.RecLen(6, vlen)
 	cfg := h.Cfg{Index: h.IndexTypes[b%3], Shards: 4, IO: "std", Limit: int64(perFile*recLen + recLen/2), Sync: "no"}
 	if b%3 == 2 {
@@ -171,8 +180,18 @@ func liveDamage(en *Env, b int) int {
 			if en.Thorough() {
 				step = 9
 			}
+			if multi {
+				step *= 200
+			}
 			for c := 0; c <= logical; c += 1 + r.Intn(step) {
 				ds = append(ds, dmg{kind: "trunc", cut: c})
+			}
+			for c := h.BlockSize; c < logical; c += h.BlockSize { // block boundaries and their neighbours
+				for _, d := range []int{-8, -7, -1, 0, 1, 7} {
+					if c+d < logical {
+						ds = append(ds, dmg{kind: "trunc", cut: c + d})
+					}
+				}
 			}
 			for i := 0; i*recLen <= logical; i++ { // record boundaries and their neighbours
 				for _, d := range []int{-1, 0, 1, 7} {
@@ -288,8 +307,8 @@ func damageBase(en *Env, b int) int {
 	u := h.SimpleKeys(nkeys, 5+r.Intn(6))
 	vs := h.NewValues()
 	cfg := h.Cfg{Index: h.IndexTypes[b%3], Shards: 4, IO: "std", Limit: 700, Sync: "no"}
-	pendingMerge := b%2 == 1
-	multiBlock := b%2 == 0
+	pendingMerge := b%3 != 0 // (Merge visits the older files in the iteration order of a Go map: two bases, two layouts)
+	multiBlock := true
 	e := h.NewEng(dir, en.Work+"/scratch", cfg, u, vs, en.T)
 	en.T.Emit(h.Ev{"ev": "reset", "n": nkeys, "seed": en.Seed, "prof": "damage"})
 	if e.Open(cfg) != "ok" {
@@ -319,6 +338,12 @@ func damageBase(en *Env, b int) int {
 	}
 	e.Put(0+1, val(0))
 	if pendingMerge {
+		// the multi-block record is live at this merge: its rewritten copy lies in a file of the merge directory
+		// that the adopting Open indexes through the hint file only (it is not scanned)
+		e.Put(nkeys, val(2*h.BlockSize+700+r.Intn(300)))
+		for i := 0; i < 4; i++ { // later records of other keys: the rewritten multi-block record is then not in the last file
+			e.Put(1+r.Intn(nkeys-1), val(150+r.Intn(200)))
+		}
 		e.Merge() // finished, not adopted: the next Open reads marker and hint
 		e.Put(2, val(17))
 	}
@@ -430,7 +455,13 @@ func damageBase(en *Env, b int) int {
 			ds = append(ds, dmg{kind: "garbage", off: 0, data: g})
 			if len(orig) > h.BlockSize {
 				ds = append(ds, dmg{kind: "garbage", off: h.BlockSize, data: g})
-				ds = append(ds, dmg{kind: "trunc", cut: h.BlockSize}, dmg{kind: "trunc", cut: h.BlockSize - 1}, dmg{kind: "trunc", cut: h.BlockSize + 7})
+				for c := h.BlockSize; c < len(orig); c += h.BlockSize { // every block boundary and its neighbours
+					for _, dd := range []int{-8, -7, -1, 0, 1, 6, 7, 8} {
+						if c+dd < len(orig) {
+							ds = append(ds, dmg{kind: "trunc", cut: c + dd})
+						}
+					}
+				}
 			}
 		}
 		for _, d := range ds {
